@@ -205,8 +205,10 @@ def build_driver():
             return None, "extraction build failed:\n" + out[-3000:]
         d = os.path.join(CACHE, "ocaml")
         os.makedirs(d, exist_ok=True)
-        srcs = [os.path.join(VERIF, "ocaml", "gen", "extracted.mli"), os.path.join(VERIF, "ocaml", "gen", "extracted.ml"),
-                os.path.join(VERIF, "ocaml", "driver.ml")]
+        odir = os.path.join(VERIF, "ocaml")
+        drvs = sorted(fn for fn in os.listdir(odir) if fn.startswith("drv_") and fn.endswith(".ml"))
+        names = ["extracted.mli", "extracted.ml", "util.ml"] + drvs + ["driver.ml"]
+        srcs = [os.path.join(odir, "gen", n) if n.startswith("extracted") else os.path.join(odir, n) for n in names]
         for s in srcs:
             if not os.path.exists(s):
                 return None, "missing " + s
@@ -217,10 +219,12 @@ def build_driver():
         exe = os.path.join(d, "driver")
         if os.path.exists(exe) and os.path.exists(stamp) and open(stamp).read() == h.hexdigest():
             return exe, ""
+        for fn in os.listdir(d):
+            if fn.endswith((".ml", ".mli", ".cmi", ".cmx", ".o")):
+                os.remove(os.path.join(d, fn))
         for s in srcs:
             shutil.copy(s, d)
-        rc, out = sh(["ocamlfind", "ocamlopt", "-O3", "-w", "-a", "extracted.mli", "extracted.ml", "driver.ml", "-o", "driver"],
-                     cwd=d, timeout=900)
+        rc, out = sh(["ocamlfind", "ocamlopt", "-O3", "-w", "-a"] + names + ["-o", "driver"], cwd=d, timeout=900)
         if rc != 0:
             return None, "ocamlopt failed:\n" + out[-3000:]
         open(stamp, "w").write(h.hexdigest())
